@@ -33,11 +33,11 @@ CHECKS.update({
              note="Trusts pbt/ref_classic.py as a faithful reading of docs/language/*.md and docs/casting.md; programs are run through the real CLI entry point of an ASan/UBSan build.",
              ref="DESIGN.md §4 C07"),
  "C10": dict(technique="metamorphic property-based testing: permutations of top-level declarations of generated programs must not change acceptance, diagnostic category, exit status or stdout",
-             text="All permutations (<=4 declarations) or sampled ones incl. the reverse order; the generator produces calls with arguments to functions that the permutation moves after their caller. No reference model is needed: the program is its own oracle.",
-             note="Classic (functions) profile; the classes profile joins when pbt/genclass.py is present.",
+             text="All permutations (<=4 declarations) or sampled ones incl. the reverse order; the generator produces calls with arguments to functions that the permutation moves after their caller, class hierarchies whose bases move after the derived class, and a family that USES functions of assorted return types (typed declarations, arithmetic, member access on the result, overload selection, conditions, returns; well- and ill-typed) from functions and class methods. No reference model is needed: the program is its own oracle.",
+             note="Classic (functions), classes and return-type-dependence profiles.",
              ref="DESIGN.md §4 C10"),
  "C13": dict(technique="coverage-guided fuzzing (libFuzzer, oracle inside the target, ASan+UBSan) + systematic token-level mutation enumeration and Hypothesis mutants with a validity-predicate oracle",
-             text="Every single-token deletion/truncation and class-directed replacement of 269 seed programs, random multi-edit mutants, multi-file trees with a mutated member and a libFuzzer campaign are pushed through both the direct and the loader front-end paths; each must terminate with acceptance or exactly one Lexical/Parse/Semantic diagnostic, no raw exception, no sanitizer report, and leave the analyser reusable.",
+             text="Every single-token deletion/truncation and class-directed replacement of 269 seed programs, every identifier swapped for another identifier of the same program and every base-class name for every class of the program (inheritance cycles, self-inheritance), random multi-edit mutants, multi-file trees with a mutated member and a libFuzzer campaign are pushed through both the direct and the loader front-end paths; each must terminate with acceptance or exactly one Lexical/Parse/Semantic diagnostic, no raw exception, no sanitizer report, and leave the analyser reusable.",
              note="Inputs bounded to 4 KiB and nesting 64; libFuzzer runs are only approximately reproducible, artifacts are re-checked by the deterministic oracle.",
              ref="DESIGN.md §4 C13", engine="libFuzzer+hypothesis+verifdrv"),
  "C14": dict(technique="property-based round-trip testing: generated syntax trees rendered with minimal/redundant parentheses and parsed back, compared as S-expressions",
@@ -63,8 +63,8 @@ CHECKS.update({
              note="The diagnostic line may be that of the built-in call inside the helper the operation was routed through.",
              ref="DESIGN.md §4 C06"),
  "C08": dict(technique="property-based differential testing: generated class programs vs a reference model of the documented object model (construction order, dispatch, static overload choice, statics, refcounted destructors)",
-             text="Every constructor, field initialiser, method and destructor traces; the complete trace must equal the reference model's. Overload sets over related reference types, base-typed references to derived objects, super calls, bare virtual calls, aliases and destroys are generated on purpose.",
-             note="Objects that die at the same scope exit may be destroyed in any order (traces are compared as sets of per-object chains); generics are exercised by C18's prelude, not modelled here.",
+             text="Every constructor, field initialiser, method and destructor traces; the complete trace must equal the reference model's. Overload sets over related reference types, base-typed references to derived objects, super calls, bare virtual calls, aliases, destroys, field initialisers that read earlier fields and constructor parameters shadowing fields are generated on purpose. Two further families with their own small models: generic hierarchies (chains of generic / non-generic classes, per-specialisation statics, inherited destructors, diamond inference) and an overload matrix (2-7 overloads of one name over primitive, array and class parameter types spread over a chain with generic levels, overridden once, called with exactly typed arguments directly and through bare / this-qualified relays).",
+             note="Objects that die at the same scope exit may be destroyed in any order (traces are compared as sets of per-object chains). Known finding generic-base-args: the analyser ignores the type arguments of an extends clause; the generators stay inside the accepted region and a reproducer is replayed on every run.",
              ref="DESIGN.md §4 C08"),
  "C09": dict(technique="metamorphic property-based testing: alpha-renaming of one local/parameter of one function/method/constructor to a fresh or colliding (capture-free) name must not change stdout/status/diagnostic",
              text="Programs whose methods use bare field names are renamed so that a local of a caller or callee collides with a field or with locals elsewhere; under lexical scoping nothing may change.",
@@ -87,8 +87,8 @@ CHECKS.update({
              note="CLI shots are seeded through the BLOCH_VERIF_SHOT_SEED hook with the same per-shot seeds as the API run.",
              ref="DESIGN.md §4 C17"),
  "C18": dict(technique="metamorphic property-based testing: an N-shot run in one process must equal N fresh single-shot processes with the same per-shot seeds",
-             text="Programs depend on per-run state on purpose (static counters feeding object ids, generic instantiations with statics incl. diamond inference and generic bases, const-sized arrays, objects owning qubits, tracked variables); echo, tracked tables, status and QASM are compared shot by shot, also after analysing twice.",
-             note="Seeds are the same function of (base seed, shot index) in both arrangements (driver option --shot0).",
+             text="Programs depend on per-run state on purpose (static counters feeding object ids, generic instantiations with statics incl. diamond inference and generic bases, const-sized arrays, objects owning qubits, tracked variables, garbage reference cycles that own a destructor and a tracked qubit); echo, tracked tables, status and QASM are compared shot by shot, also after analysing twice. Half of the cases configure each shot's evaluator exactly as the shot loop of cli.cpp does (QASM log and exit warnings for the last shot only).",
+             note="Seeds are the same function of (base seed, shot index) in both arrangements (driver option --shot0); collections are driven by allocation pressure only (no 50 ms timer) in both arrangements so that finalisation order is a function of the program.",
              ref="DESIGN.md §4 C18"),
 })
 REASONS = {}
